@@ -96,6 +96,29 @@ theorem policy_numbers_strictly_increase_partial (sysEmail : Bool) (es : List Ev
 
 def stepsN (pid n : Nat) : List Event := List.replicate n (Event.step pid)
 
+/-- Number of steps invocation `pid` needs until the command it is about to run satisfies `pred`
+(so that the witnesses below do not depend on instruction indices). -/
+def countUntil (pred : Cmd → Bool) (pid : Nat) : Nat → State → Nat
+  | 0, _ => 0
+  | fuel + 1, s =>
+    match findProc s.procs pid with
+    | some p =>
+      if p.alive && !(((instrAt prog p.pc).map (fun i => pred i.cmd)).getD true) then
+        countUntil pred pid fuel (step prog s (.step pid)) + 1
+      else 0
+    | none => 0
+
+/-- first run completes (p1 current), a good commit arrives, a second invocation starts -/
+def history1 : List Event := [.spawn] ++ stepsN 1 200 ++ [.commit true none true, .spawn]
+/-- … and is killed right before the first command satisfying `pred` -/
+def killedBefore (pred : Cmd → Bool) : List Event :=
+  history1 ++ stepsN 2 (countUntil pred 2 200 (run prog false history1)) ++ [.kill 2]
+/-- … a user commit lands right before `git push`, the run goes on and is killed before `ln -s`;
+a third invocation runs to its end -/
+def racedAndLostLink : List Event :=
+  let a := history1 ++ stepsN 2 (countUntil (· == .gitPush) 2 200 (run prog false history1)) ++ [.commit true none true]
+  a ++ stepsN 2 (countUntil (· == .lnCurrent) 2 200 (run prog false a)) ++ [.kill 2, .spawn] ++ stepsN 3 200
+
 /-- … false without that hypothesis: a user commit lands between `git pull` and `git push` of the
 second run (push rejected), the run is killed between `rm -f $CURRENT` and `ln -s`; the third run
 computes the number 2 again, its `mv next p2` lands inside the existing p2 and it makes the OLD
@@ -103,8 +126,7 @@ directory p2 current. -/
 theorem policy_numbers_strictly_increase_counterexample :
     ∃ es : List Event, strictlyDecreasing (run prog false es).g.hist = false ∧
       (run prog false es).g.edited = false :=
-  ⟨[.spawn] ++ stepsN 1 80 ++ [.commit true none true, .spawn] ++ stepsN 2 47 ++ [.commit true none true] ++
-    stepsN 2 5 ++ [.kill 2, .spawn] ++ stepsN 3 80, by decide +kernel⟩
+  ⟨racedAndLostLink, by decide +kernel⟩
 
 /-- "The next undisturbed run makes the newest compiling revision current" is false (F-C19):
 the second run is killed after `git push`, right before `mv next $POLICY`.  The database is
@@ -119,7 +141,7 @@ theorem next_run_promotes_newest_counterexample :
       exitOf (runNew prog 200 (run prog false es)) (run prog false es).npid = some 0 ∧
       (runNew prog 200 (run prog false es)).g.newest = false ∧
       (runNew prog 200 (run prog false es)).g.current = some 1 :=
-  ⟨[.spawn] ++ stepsN 1 80 ++ [.commit true none true, .spawn] ++ stepsN 2 50 ++ [.kill 2], by decide +kernel⟩
+  ⟨killedBefore (· == .mvNextTo), by decide +kernel⟩
 
 /-- Same root cause, wider window (F-C19b): killed before the compile of the second run. -/
 theorem next_run_promotes_newest_counterexample_compile :
@@ -129,7 +151,7 @@ theorem next_run_promotes_newest_counterexample_compile :
       (run prog false es).g.staleNext = true ∧
       exitOf (runNew prog 200 (run prog false es)) (run prog false es).npid = some 0 ∧
       (runNew prog 200 (run prog false es)).g.newest = false :=
-  ⟨[.spawn] ++ stepsN 1 80 ++ [.commit true none true, .spawn] ++ stepsN 2 38 ++ [.kill 2], by decide +kernel⟩
+  ⟨killedBefore (· == .compile), by decide +kernel⟩
 
 /-- The next undisturbed run makes the newest compiling revision current — for every history after
 which the database is quiescent, the newest revision compiles, no git command of the script has
@@ -149,8 +171,8 @@ theorem next_run_promotes_newest_partial (sysEmail : Bool) (es : List Event)
 /-! Non-vacuity: histories with bad commits, reverts, kills and a second invocation meet the
 hypotheses of the `_partial` theorems. -/
 example :
-    let es : List Event := [.spawn] ++ stepsN 1 80 ++ [.commit false none true, .spawn] ++ stepsN 2 30 ++ [.spawn] ++
-      stepsN 3 12 ++ stepsN 2 150 ++ [.commit true none true, .spawn] ++ stepsN 4 20 ++ [.kill 4, .commit true none false]
+    let es : List Event := [.spawn] ++ stepsN 1 200 ++ [.commit false none true, .spawn] ++ stepsN 2 30 ++ [.spawn] ++
+      stepsN 3 12 ++ stepsN 2 300 ++ [.commit true none true, .spawn] ++ stepsN 4 20 ++ [.kill 4, .commit true none false]
     quiescent (run prog false es) = true ∧
     (commitAt (run prog false es).g.store (run prog false es).g.remote).good = true ∧
     (run prog false es).g.staleNext = false ∧ (run prog false es).g.trouble = false ∧
